@@ -126,8 +126,21 @@ def _case(draw, maxstages, maxdepth):
             stages.append({"id": sid, "parent": parent["id"], "op": "Select", "param": p, "body": body, "form": form})
             streams.append({"id": sid, "type": t})
         elif k <= 7:
-            if is_typed:
-                body = typed.gen(cx, env, typed.B, depth)
+            sugar = draw(st.integers(0, 9))
+            sp = typed.seq_paths(cx, env)
+            if sugar <= 2 and sp:
+                # a filter that needs the sugar pass: a comprehension counted / measured
+                se, sty = draw(st.sampled_from(sp))
+                v = cx.fresh(env)
+                e2 = typed.bind(env, v, sty[1])
+                comp = typed.comprehension(cx, e2, v, typed._fill(cx, se), typed.gen(cx, e2, draw(st.sampled_from([typed.I, typed.F])), 0), 1)
+                body = f"{draw(st.sampled_from(['Count', 'len']))}({comp}) {draw(st.sampled_from(['>', '>=', '!=']))} {draw(st.integers(0, 2))}"
+            elif sugar == 3 and form == "callable":
+                # ... or a record constructor whose field is compared
+                t = ("D", (("f_a", typed.I), ("f_b", typed.F)))
+                body = f"{typed.gen(cx, env, t, 1)}.f_b {draw(st.sampled_from(['>', '<', '>=']))} {typed.gen(cx, env, typed.F, 0)}"
+            elif is_typed:
+                body = typed.filter_body(cx, env, depth)
             else:  # without type information only comparisons / boolean combinations are accepted as filters
                 t = draw(st.sampled_from([typed.I, typed.F]))
                 body = f"{typed.gen(cx, env, t, depth)} {draw(st.sampled_from(['>', '<', '>=', '!=']))} {typed.gen(cx, env, t, 0)}"
